@@ -4,7 +4,9 @@
 (*   ab, ba, aa  results "true" | "false" | "err" | "panic" of Equal(a,b),    *)
 (*   Equal(b,a), Equal(a,a); mal: some text is malformed (then sa, sb are     *)
 (*   placeholders); enum: outcome of parsing a schema with enum [a, b]        *)
-(*   ("dup" | "ok" | "err" | "na").                                           *)
+(*   ("dup" | "ok" | "err" | "na"); red: for two numbers, whether the         *)
+(*   generator folded two default responses differing only in this bound      *)
+(*   ("folded" | "kept" | "err" | "na").                                      *)
 EXTENDS JSONEqual, ObsLib
 CONSTANT KnownDeviations
 
@@ -25,6 +27,9 @@ Verdict(o) ==
   ELSE LET want == B(SemEqual(o.sa, o.sb)) IN
        IF o.ab = want /\ o.ba = want /\ o.aa = "true"
           /\ (o.enum = "na" \/ (o.enum = "dup") = SemEqual(o.sa, o.sb))
+          \* gen/reduce.go: two default responses that differ only in a numeric bound are
+          \* one response exactly when the two bounds are the same number
+          /\ (o.red \in {"na", "err"} \/ (o.red = "folded") = SemEqual(o.sa, o.sb))
        THEN (IF o.ab = B(ImplEqual(o.sa, o.sb, {})) THEN "ok" ELSE "drift")
        ELSE "viol"
 
